@@ -48,6 +48,9 @@ type world struct {
 	// verifying it (on the side chain the acknowledged momentum does not exist)
 	stale     *nom.AccountBlock
 	dishonest map[int][]*nom.DetailedMomentum
+	genesis   types.HashHeight
+	// momentums that are correctly produced and signed but fail verification on any honest node (the dishonest tails)
+	unverifiable map[*nom.DetailedMomentum]bool
 }
 
 func keyOf(addr types.Address) *wallet.KeyPair {
@@ -60,7 +63,8 @@ func keyOf(addr types.Address) *wallet.KeyPair {
 }
 
 func buildWorld(c *xs.Ctx, length int, depths []int) *world {
-	w := &world{name: fmt.Sprintf("L%d", length), sides: map[int][]*nom.DetailedMomentum{}, sideLen: map[int]int{}, dishonest: map[int][]*nom.DetailedMomentum{}}
+	w := &world{name: fmt.Sprintf("L%d", length), sides: map[int][]*nom.DetailedMomentum{}, sideLen: map[int]int{}, dishonest: map[int][]*nom.DetailedMomentum{},
+		unverifiable: map[*nom.DetailedMomentum]bool{}}
 	p := vnode.New(vnode.Options{Dir: c.TempDir()})
 	defer p.Destroy()
 	// local chain of `length` momentums above genesis, with some content at the start and near the tip
@@ -73,6 +77,7 @@ func buildWorld(c *xs.Ctx, length int, depths []int) *world {
 	ops.Apply(p, M) // height length+1
 	L := p.Height()
 	w.local = p.Range(2, L)
+	w.genesis = p.Detailed(1).Momentum.Identifier()
 	staleTx, err := p.Generate(&nom.AccountBlock{BlockType: nom.BlockTypeUserSend, Address: ops.Users[9].Address, ToAddress: ops.Users[8].Address,
 		TokenStandard: types.ZnnTokenStandard, Amount: ops.Big(3)})
 	if err != nil {
@@ -117,6 +122,7 @@ func buildWorld(c *xs.Ctx, length int, depths []int) *world {
 			}
 			ops.Apply(q, M)
 			w.dishonest[d] = q.Range(L-uint64(d)+1, q.Height()) // d+2 momentums, the last one cements the stale block
+			w.unverifiable[w.dishonest[d][len(w.dishonest[d])-1]] = true
 			if n := len(w.dishonest[d]); len(w.dishonest[d][n-1].AccountBlocks) == 0 {
 				panic("harness: dishonest momentum is empty")
 			}
@@ -156,7 +162,7 @@ type shape struct {
 	expectChain func(w *world) []*nom.DetailedMomentum // chain (heights 2..) the node must end on
 	expectErr   bool
 	pre         func(n *vnode.Node, w *world) // optional: something that happens on the node before the delivery
-	expectIdx   int // expected returned index when expectErr (−1 = not checked: the statement only fixes it for a failing momentum)
+	expectIdx   int                           // expected returned index when expectErr (−1 = not checked: the statement only fixes it for a failing momentum)
 	then        *shape
 }
 
@@ -172,7 +178,74 @@ func cat(a ...[]*nom.DetailedMomentum) []*nom.DetailedMomentum {
 func mutate(d *nom.DetailedMomentum, f func(d *nom.DetailedMomentum)) *nom.DetailedMomentum {
 	c := vnode.CloneDetailed(d)
 	f(c)
-	return vnode.CloneDetailed(c)
+	out := vnode.CloneDetailed(c)
+	invalidByConstruction[out] = true
+	return out
+}
+
+// invalidByConstruction: batch elements that were produced by altering a valid momentum (or one of its blocks)
+var invalidByConstruction = map[*nom.DetailedMomentum]bool{}
+
+// refInsert is the reference decision: given the chain the node is on (heights 2..) and a delivered batch whose elements'
+// validity is known by construction, which chain must the node be on afterwards, must an error be reported, and at which
+// index. It encodes the statement only: known momentums change nothing; the rest must link to one of the node's own
+// momentums at most 30 below its frontier; an extension is applied up to the first failing element; a side chain is
+// adopted only if it is strictly longer and verifies completely.
+func refInsert(cur []*nom.DetailedMomentum, genesis types.HashHeight, batch []*nom.DetailedMomentum, invalid func(*nom.DetailedMomentum) bool) (next []*nom.DetailedMomentum, wantErr bool, idx int) {
+	at := func(h uint64) (types.HashHeight, bool) { // identifier of the node's momentum at height h
+		if h == 1 {
+			return genesis, true
+		}
+		if h >= 2 && h-2 < uint64(len(cur)) {
+			return cur[h-2].Momentum.Identifier(), true
+		}
+		return types.HashHeight{}, false
+	}
+	tip, _ := at(uint64(len(cur)) + 1)
+	start := 0
+	for start < len(batch) {
+		id, ok := at(batch[start].Momentum.Height)
+		if !ok || id.Hash != batch[start].Momentum.Hash {
+			break
+		}
+		start++
+	}
+	if start == len(batch) {
+		return cur, false, 0
+	}
+	rest := batch[start:]
+	head := rest[0].Momentum
+	if head.Previous() == tip {
+		next = append([]*nom.DetailedMomentum{}, cur...)
+		for i, d := range rest {
+			if invalid(d) || (i > 0 && d.Momentum.Previous() != rest[i-1].Momentum.Identifier()) {
+				return next, true, start + i
+			}
+			next = append(next, d)
+		}
+		return next, false, 0
+	}
+	if head.Height < 2 {
+		return cur, true, -1
+	}
+	parent, ok := at(head.Height - 1)
+	if !ok || parent != head.Previous() {
+		return cur, true, -1
+	}
+	if tip.Height-parent.Height > 30 {
+		return cur, true, -1
+	}
+	tail := rest[len(rest)-1].Momentum
+	if tail.Height <= tip.Height {
+		return cur, true, -1
+	}
+	for i, d := range rest {
+		if invalid(d) || (i > 0 && d.Momentum.Previous() != rest[i-1].Momentum.Identifier()) {
+			return cur, true, start + i // a node leaves its chain only for a chain that verifies completely
+		}
+	}
+	next = append([]*nom.DetailedMomentum{}, cur[:parent.Height-1]...)
+	return append(next, rest...), false, 0
 }
 
 func resign(m *nom.Momentum, key *wallet.KeyPair) {
@@ -267,7 +340,22 @@ func localOf(w *world) []*nom.DetailedMomentum { return w.local }
 
 func shapesFor(w *world) []*shape {
 	var out []*shape
-	add := func(s *shape) { s.World = w.name; out = append(out, s) }
+	add := func(s *shape) {
+		s.World = w.name
+		// a shape's batch is built once: the reference decision identifies altered elements by pointer
+		for st := s; st != nil; st = st.then {
+			build := st.batch
+			var memo []*nom.DetailedMomentum
+			done := false
+			st.batch = func(w *world) []*nom.DetailedMomentum {
+				if !done {
+					memo, done = build(w), true
+				}
+				return memo
+			}
+		}
+		out = append(out, s)
+	}
 	L := len(w.local)
 	// extensions
 	for k := 1; k <= 3; k++ {
@@ -451,6 +539,14 @@ func runShape(c *xs.Ctx, r *xs.Result, w *world, s *shape) {
 			return
 		}
 		want := step.expectChain(w)
+		// the general reference decision must agree with the expectation written down by construction of the shape
+		if step == s {
+			rn, rerr, ridx := refInsert(w.local, w.genesis, step.batch(w), func(d *nom.DetailedMomentum) bool { return invalidByConstruction[d] || w.unverifiable[d] })
+			if tipOf(rn, w.genesis) != tipOf(want, w.genesis) || rerr != step.expectErr || (rerr && step.expectIdx >= 0 && ridx >= 0 && ridx != step.expectIdx) {
+				panic(fmt.Sprintf("harness: reference decision (tip %v err %v idx %d) disagrees with the shape's own expectation (tip %v err %v idx %d) for %s/%s",
+					tipOf(rn, w.genesis), rerr, ridx, tipOf(want, w.genesis), step.expectErr, step.expectIdx, w.name, step.Name))
+			}
+		}
 		wantTip := types.HashHeight{}
 		if len(want) > 0 {
 			wantTip = want[len(want)-1].Momentum.Identifier()
@@ -484,6 +580,61 @@ func runShape(c *xs.Ctx, r *xs.Result, w *world, s *shape) {
 		// every pooled block must be valid: acceptable to a fresh node fed the same chain
 		r.Add("outcomes", fmt.Sprintf("%s err=%v", classify(step.Name), err != nil))
 	}
+}
+
+func tipOf(chain []*nom.DetailedMomentum, genesis types.HashHeight) types.HashHeight {
+	if len(chain) == 0 {
+		return genesis
+	}
+	return chain[len(chain)-1].Momentum.Identifier()
+}
+
+// runSequence delivers two batches one after the other; expectations come from the reference decision alone.
+func runSequence(c *xs.Ctx, r *xs.Result, w *world, s1, s2 *shape) {
+	n := vnode.New(vnode.Options{Dir: c.TempDir(), NoPillars: true})
+	defer n.Destroy()
+	feed(n, w.local)
+	cur := w.local
+	inv := func(d *nom.DetailedMomentum) bool { return invalidByConstruction[d] || w.unverifiable[d] }
+	for _, st := range []*shape{s1, s2} {
+		// Shapes whose invalid element is an attached account block that keeps its hash (or a missing one) are covered
+		// singly only: InsertChain rightly skips blocks the node already holds under that identifier (they were verified
+		// when a previous delivery pooled them), so whether such an element fails depends on the pool, which this
+		// reference does not model.
+		if st.pre != nil || strings.Contains(st.Name, "account-block-") || strings.Contains(st.Name, "contract-receive-data") || strings.Contains(st.Name, "missing-account-block") {
+			return
+		}
+	}
+	for i, st := range []*shape{s1, s2} {
+		batch := st.batch(w)
+		want, wantErr, wantIdx := refInsert(cur, w.genesis, batch, inv)
+		idx, err, pan := n.InsertChain(vnode.CloneBatch(batch))
+		r.Count("batches_delivered", 1)
+		rep := map[string]string{"world": w.name, "shape": s1.Name, "then": s2.Name}
+		bad := func(sig, format string, a ...interface{}) {
+			r.Violate("C16:seq:"+sig, fmt.Sprintf("local chain %s, batches %q then %q (step %d): ", w.name, s1.Name, s2.Name, i+1)+fmt.Sprintf(format, a...), rep)
+		}
+		if pan != nil {
+			bad(classify(st.Name)+":panic", "InsertChain panicked: %v", pan)
+			return
+		}
+		if (err != nil) != wantErr {
+			bad(classify(st.Name)+":verdict", "err=%v, reference expects error=%v", err, wantErr)
+		}
+		if got := n.Frontier().Identifier(); got != tipOf(want, w.genesis) {
+			bad(classify(st.Name)+":wrong-final-chain", "node ends at height %d (%v), reference at height %d", got.Height, got.Hash, tipOf(want, w.genesis).Height)
+			return
+		}
+		if d := n.FullDigest(); d != refDigest(c, want) {
+			bad(classify(st.Name)+":store-differs", "raw store differs from a fresh node fed the reference chain")
+			return
+		}
+		if err != nil && wantErr && wantIdx >= 0 && idx != wantIdx {
+			bad(classify(st.Name)+":wrong-index", "returned index %d, reference %d", idx, wantIdx)
+		}
+		cur = want
+	}
+	r.Count("sequences", 1)
 }
 
 func short(s string) string {
@@ -571,6 +722,23 @@ func run(c *xs.Ctx, r *xs.Result) {
 			runShape(c, r, w, s)
 			r.Count("shapes", 1)
 			r.Sample(map[string]string{"world": w.name, "shape": s.Name})
+		}
+		if c.Thorough() && only.Shape == "" {
+			// all ordered pairs of batches (depth-2 histories of deliveries), judged by the reference decision
+			all := shapesFor(w)
+			for _, s1 := range all {
+				for _, s2 := range all {
+					i++
+					if !c.Mine(i) {
+						continue
+					}
+					if c.Expired() {
+						r.Incomplete = true
+						return
+					}
+					runSequence(c, r, w, s1, s2)
+				}
+			}
 		}
 	}
 }
